@@ -6,6 +6,7 @@ package symexec
 // it is never guessed.
 
 import (
+	"os"
 	"encoding/json"
 	"fmt"
 	"go/types"
@@ -205,6 +206,9 @@ func init() {
 			return i.mkError(fr, err), true
 		},
 		"regexp.Compile": func(i *interpreter, fr *frame, a []value) (value, bool) {
+			if os.Getenv("GOSYM_DEBUG_RE") != "" {
+				fmt.Fprintf(os.Stderr, "regexp.Compile(%q)\n", strArg(a[0]))
+			}
 			re, err := regexp.Compile(strArg(a[0]))
 			if err != nil {
 				return tuple{(*value)(nil), i.mkError(fr, err)}, true
@@ -229,6 +233,9 @@ func init() {
 		},
 		"(*regexp.Regexp).FindAllStringSubmatch": func(i *interpreter, fr *frame, a []value) (value, bool) {
 			res := getNative(a[0]).(*regexp.Regexp).FindAllStringSubmatch(strArg(a[1]), int(asInt64(a[2])))
+			if os.Getenv("GOSYM_DEBUG_RE") != "" {
+				fmt.Fprintf(os.Stderr, "FindAll re=%q s=%q n=%d -> %v\n", getNative(a[0]).(*regexp.Regexp).String(), strArg(a[1]), asInt64(a[2]), res)
+			}
 			if res == nil {
 				return []value(nil), true
 			}
@@ -249,6 +256,9 @@ func init() {
 			return tuple{s, i.mkError(fr, err)}, true
 		},
 		"github.com/GuanceCloud/grok.CopyDenormalizedDefalutPatterns": func(i *interpreter, fr *frame, a []value) (value, bool) {
+			if i.wantInit("github.com/GuanceCloud/grok") {
+				return nil, false // the grok package is initialised: use its real table
+			}
 			return (*omap)(nil), true // global grok patterns are outside the encoded part
 		},
 	}
